@@ -275,6 +275,8 @@ pub struct TopStmt {
     pub start_line: usize,
     pub end_line: usize,
     pub ignored: bool,
+    /// inside a `-- stylua: ignore start` ... `-- stylua: ignore end` region
+    pub in_region: bool,
     pub span: (usize, usize),
 }
 
@@ -339,7 +341,7 @@ pub fn top_statements(block: &Value) -> Vec<TopStmt> {
     let mut region = false;
     for pair in stmts {
         let stmt = &pair[0];
-        let mut t = TopStmt { kind: None, name: String::new(), start_line: 0, end_line: 0, ignored: false, span: span(stmt).unwrap_or((0, 0)) };
+        let mut t = TopStmt { kind: None, name: String::new(), start_line: 0, end_line: 0, ignored: false, in_region: false, span: span(stmt).unwrap_or((0, 0)) };
         if let Some(la) = stmt.get("LocalAssignment") {
             let names = la["name_list"]["pairs"].as_array().cloned().unwrap_or_default();
             let exprs = la["expr_list"]["pairs"].as_array().cloned().unwrap_or_default();
@@ -362,10 +364,31 @@ pub fn top_statements(block: &Value) -> Vec<TopStmt> {
                 region = false;
             }
         }
+        t.in_region = region;
         t.ignored = region || lines.iter().any(|l| l == "stylua: ignore");
         out.push(t);
     }
     out
+}
+
+/// does a require group of two or more members (the groups of `expected_order`) have a member inside an ignore region?
+pub fn region_touches_group(stmts: &[TopStmt]) -> bool {
+    let mut i = 0;
+    while i < stmts.len() {
+        let Some(k) = &stmts[i].kind else {
+            i += 1;
+            continue;
+        };
+        let mut j = i + 1;
+        while j < stmts.len() && stmts[j].kind.as_ref() == Some(k) && stmts[j].start_line.saturating_sub(stmts[j - 1].end_line) <= 1 {
+            j += 1;
+        }
+        if j - i >= 2 && stmts[i..j].iter().any(|s| s.in_region) {
+            return true;
+        }
+        i = j;
+    }
+    false
 }
 
 /// The permutation the documented rule prescribes: result[i] = index of the input statement that comes i-th.
